@@ -472,6 +472,7 @@ pub fn run_property(ctx: &Ctx) -> i32 {
     }
     match ctx.property.as_str() {
         "C10" | "C11" | "C12" | "C13" => return run_e2(ctx),
+        "C06" => return crate::e6::run(ctx),
         "C15" => return crate::e15::run(ctx),
         "C16" => return crate::e16::run(ctx),
         "C18" => return crate::e4::run_c18(ctx),
@@ -519,8 +520,9 @@ pub fn replay(path: &str) -> i32 {
                 1
             }
         }
-        Some(k @ ("c15" | "c16" | "c18" | "c19" | "c20" | "c20-solve")) => {
+        Some(k @ ("c06" | "c06-digest" | "c15" | "c16" | "c18" | "c19" | "c20" | "c20-solve")) => {
             let f = |r: &Value| match k {
+                "c06" | "c06-digest" => crate::e6::replay(r),
                 "c15" => crate::e15::replay(r),
                 "c16" => crate::e16::replay(r),
                 "c18" => crate::e4::replay_c18(r),
